@@ -924,6 +924,8 @@ class LoopRig:
 				return ['exit']
 			if item[0] == 'interrupt':
 				raise KeyboardInterrupt()
+			if item[0] == 'ttyraise':  # tty()/readline itself raises
+				raise item[1]
 			if item[0] == 'stub':
 				inter.transpiler = stub
 				stub.plan = [item[1]]
@@ -1093,6 +1095,9 @@ def stream_loop(ctx: Ctx) -> Stream:
 				ok_it, ok_tok = req_item(['b = 2'], None)
 				cases.append(({'kind': 'request-boundary'}, ['\t'.join(['loopreq', tok, ok_tok])], [run_script([it, ok_it])]))
 		_dl_loop_requests = _deadline(ctx, 'loop-requests', ctx.scale(30, 200))
+		for exc in (UnicodeDecodeError('utf-8', b'a = 1\xff', 5, 6, 'invalid start byte'), Errors.Syntax('s'), OSError('bash'), KeyboardInterrupt()):
+			ok_it, ok_tok = req_item(['b = 2'], None)
+			cases.append(({'kind': 'tty-raises'}, ['\t'.join(['loopreq', ok_tok, 'raise|' + exc_spec(exc), ok_tok])], [run_script([ok_it, ('ttyraise', exc), ok_it])]))
 		for _ in range(ctx.scale(60, 400)):
 			if _dl_loop_requests.over():
 				continue
@@ -1102,6 +1107,12 @@ def stream_loop(ctx: Ctx) -> Stream:
 					script.append(('interrupt',))
 					toks.append('interrupt')
 					continue
+				if rng.random() < 0.1:
+					exc = make_exception(rng.choice(classes), rng.choice(['none', 'other']), None)
+					if exc is not None:
+						script.append(('ttyraise', exc))
+						toks.append('raise|' + exc_spec(exc))
+						continue
 				ls = [rng.choice(words) for _j in range(rng.choice([0, 0, 1, 1, 1, 2, 2, 3]))]
 				exc = make_exception(rng.choice(classes), rng.choice(['none', 'other']), None) if rng.random() < 0.4 else None
 				it, tok = req_item(ls, exc)
@@ -2491,6 +2502,7 @@ STATEMENTS = {
 	'request_step': 'one pass of the loop for a request given as a list of lines = the abstract step: quit on the quit command, otherwise the outcome decides (so loop / loop_history / turn_survives cover every request)',
 	'request_survives': 'every request other than the quit command with an outcome in {ok} ∪ Errors.Error returns to the prompt',
 	'quit_test_unguarded_counterexample': 'NEGATIVE: `lines[0] == quit line` without the length guard raises IndexError on the empty request outside the inner try and ends the session',
+	'tty_raise_unprotected': 'NEGATIVE (the hazard behind finding cli:UnicodeDecodeError@bin/io.py:readline): `lines = tty(prompt)` is outside the inner try — every exception of tty()/readline other than KeyboardInterrupt, Errors.Error included, ends the session',
 	'tty_request_shape': 'for every keyboard transcript tty() hands over a request without empty lines, containing the quit line only as the whole quit command, and consumes at least one key',
 	'tty_quit_typed': 'the keys left by tty() are keys of the transcript; the quit command is handed over only when the quit line was typed',
 	'session_survives': 'for EVERY keyboard transcript and every serving of requests with outcomes in {ok} ∪ Errors.Error (printable), Interactive.run ends at the prompt or through the quit command, and the latter only when the quit line was typed',
